@@ -753,7 +753,7 @@ def c15(X, src, mode="exec"):
         if o[0] == "SyntaxError":
             import re as _re
             m = _re.search(r"Python \((\d+), (\d+)\)", str(o[1][1]))
-            if m and (int(m.group(1)), int(m.group(2))) > (3, minor) and base[0] == "ok":
+            if m and (int(m.group(1)), int(m.group(2))) > (3, minor):
                 ok = True
         if not ok:
             return {"kind": "py_version-changes-outcome", "observed": f"(3,{minor}): {repr(o)[:200]}", "expected": repr(base)[:200]}
